@@ -92,6 +92,18 @@ theorem c13_stage_drains :
       "recoveredSignc, errc := recoverSign(queryCtxWithValue, signAllc, d.suite, pubPoly, (len(ids)/2 + 1), len(ids), d.logger)"] :=
   ⟨rfl, rfl, rfl, rfl, rfl⟩
 
+/-- **0c. the watchdog arm is run on the real statements** (Review A #7).  `queryLoop` creates its
+30-minute ticker itself; the hook `VerifQueryLoopTick(tick)` (dosnode/zz_verif_c13.go, build tag verif)
+is a copy with that ticker replaced by an injected channel.  Regenerated with the same walker: the
+copy's statement skeleton IS `queryLoop`'s, up to exactly the ticker's creation (left out) and
+`watchdog.C` reading `tick` – so the `w` events of the correspondence run execute the statements
+`c13_code_shape` pins.  An edit of `queryLoop` that is not mirrored in the hook breaks this. -/
+theorem c13_tick_hook_is_queryLoop :
+    Gen.QueryLoopFacts.queryLoopTickParams = ["tick <-chan time.Time"]
+    ∧ Gen.QueryLoopFacts.queryLoopTick.map (fun l => if l = "    case <-tick" then "    case <-watchdog.C" else l)
+      = Gen.QueryLoopFacts.queryLoop.filter (fun l => l != "watchdog := time.NewTicker(30 * time.Minute)") := by
+  decide
+
 /-- **1. exactly once per delivery, before or after registration.**  If instance `h` registers
 for request id `r` at any position of the schedule, nobody else registers for `r`, `h` registers
 nowhere else and is not cancelled, then what `h` receives is exactly the list of shares that
